@@ -1,7 +1,7 @@
 """C17 — turning a size optimisation on never makes the output longer (real-world modules).
 
 Space: a pinned corpus (corpus/SHA256SUMS): every module of python_minifier at the pinned commit and the first 149 top-level modules of the
-CPython 3.12.1 standard library between 2 and 120 KiB.  For every module x every size option o in {combine_imports, remove_pass,
+CPython 3.12.1 standard library between 2 and 120 KiB, plus 140 small real modules (150 B - 2 KiB: package __init__/__main__ files and tiny modules, where a cost model that is off by a couple of bytes flips the outcome).  For every module x every size option o in {combine_imports, remove_pass,
 remove annotations (the three default kinds), remove_object_base, remove_builtin_exception_brackets, remove_explicit_return_none,
 convert_posargs_to_args, hoist_literals, rename_locals, rename_globals, constant_folding} x base in {all off, default minus o}:
 len(minify(S, base + o)) <= len(minify(S, base)) in characters and in UTF-8 bytes.  The finite space is enumerated completely.
